@@ -86,7 +86,7 @@ CHECKS = {
             'values, working directories and locales give identical sha256 for every output file and write nothing else; '
             'call histories on one wrapper vs fresh wrappers; 16 parallel script processes in one directory.',
             'partial: hash seed, locale, cwd, process identity and parallel writers are outside any executable model; they '
-            'are monitored by the correspondence only. strace-level read/write sets are not checked in the quick tier.',
+            'are monitored by the experiments only (sha256 across environments, strace of both scripts: nothing written outside the requested output).',
             'Coq proof (reset invariant over call histories) + environment/history/parallel experiments', '6 C14'),
     'C17': ('proof', 'Theorems (Props/C17.v): cpp_decode(literal s) = utf8 s for every text of printable characters (table '
             'regenerated from the running interpreter) plus tab/newline/CR, any mix of quotes and backslashes - full statement '
